@@ -780,10 +780,9 @@ LeanFilePack(H, T) ==
 \* object is left); _remove_blob_files_tagged_for_removal_during_pack removes them or moves them to <blobs>.old
 MixinPackFiles(F, H, H2, wipe) ==
   LET removed == BlobRevsOf(H) \ BlobRevsOf(H2)
-      kept == BlobRevsOf(H2)
   IN IF PackWipesOidDir
      THEN [k \in {k \in DOMAIN F : k[1] \notin wipe /\ k \notin removed} |-> F[k]]
-     ELSE [k \in {k \in DOMAIN F : k \notin removed /\ (k[1] \in wipe => k \in kept)} |-> F[k]]
+     ELSE [k \in {k \in DOMAIN F : k \notin removed} |-> F[k]]
 \* wrapper, as the code is: per oid directory keep the newest file if the object loads, else remove the directory
 NewestOnly(F, H2) ==
   LET T(b) == {k[2] : k \in {k \in DOMAIN F : k[1] = b}}
@@ -816,6 +815,8 @@ Pack(T) ==
 \* for the commit lock; the blob pack walks the directory as it finds it): the file of the transaction in progress
 \* counts as the newest one of its oid, or - the object has no record yet - as garbage
 PackDuring(T) ==
+  \* (repaired: the blob walk holds the commit lock, i.e. such a pack waits and is an ordinary Pack afterwards)
+  /\ PackIgnoresInFlight
   /\ Flavour = "wrapmap" /\ txn.who # "none" /\ txn.phase \in {"stored", "voted"} /\ aux.late = "none" /\ T \in 1..clk
   /\ \E r \in {MappingPack(hist, T, TRUE, packed[2])} :
      LET done == r.out = "ok" IN
